@@ -326,7 +326,7 @@ def check_property(prop, tier, seed, verbose=False):
                 cover['bounded'].append({'search': rp['driver'], 'args': rp.get('args', {}), 'result': last, 'hit': bool(rr.get('reproduced'))})
                 # a search may itself pin OPEN known findings (it prints `KNOWN ...` for them and goes on): each such line must be
                 # described by an open entry of known_findings.json (witness_pattern), and is reported as KNOWN-FINDING
-                for kline in [l for l in rr.get('output', '').split('\n') if l.startswith('KNOWN ') or l.startswith('KNOWN-FINDING ')]:
+                for kline in [l for l in rr.get('output', '').split('\n') if l.startswith(('KNOWN ', 'KNOWN-FINDING ', 'KNOWN-OPEN '))]:
                     k = next((k for k in known if k.get('property') == prop and k.get('status') == 'open' and k.get('witness_pattern')
                               and re.search(k['obligation'], 'bounded-search:' + rp['driver']) and re.search(k['witness_pattern'], kline)), None)
                     if k:
